@@ -226,7 +226,7 @@ pub fn build(id: &str, tier: Tier) -> Option<Check> {
         "C13" => Check {
             id: "C13",
             jobs: vec![
-                bfs(hub("c13-main", |h| { h.arm.c13 = true; h.with_registry = true; h.with_rewards = true; h.with_convert = false; h.seeds = if q { vec!["funded", "three_vals", "one_val"] } else { vec!["funded", "three_vals", "one_val", "inflight", "slashed_unseen"] }; }), tier.pick(4, 6), secs),
+                bfs(hub("c13-main", |h| { h.arm.c13 = true; h.with_registry = true; h.with_rewards = true; h.with_convert = false; h.seeds = if q { vec!["funded", "three_vals", "one_val", "blocked_removal"] } else { vec!["funded", "three_vals", "one_val", "blocked_removal", "inflight", "slashed_unseen"] }; }), tier.pick(4, 6), secs),
             ],
             rule: "hub-core exploration with AddValidator/RemoveValidator for val1 and val3 enabled in every state (pending rewards, in-flight batches, blocked redelegation after a previous removal, re-addition); every RemoveValidator by the owner is checked against the staking ledger; non-trivial = a removal checked".into(),
             assumptions: envelope(),
